@@ -10,6 +10,8 @@ mkdir -p $MX/verif
 cp -r /verif/harness $MX/verif/harness 2>/dev/null
 rm -rf $MX/verif/harness/target
 cp -r /verif/golden /verif/model /verif/known_findings.json /verif/check /verif/setup.sh $MX/verif/
+cp -r /verif/plain $MX/verif/plain; rm -rf $MX/verif/plain/target
+sed -i "s#/repo#$MX/repo#g" $MX/verif/plain/Cargo.toml
 grep -rl "/repo" $MX/verif/harness --include=*.rs --include=*.toml | xargs sed -i "s#/repo#$MX/repo#g"
 sed -i "s#/repo#$MX/repo#g" $MX/verif/check $MX/verif/setup.sh
 (cd $MX/verif && ./setup.sh >/dev/null 2>&1) || { echo "setup failed"; exit 2; }
